@@ -3,6 +3,11 @@ package checks
 import (
 	"bytes"
 	"fmt"
+	"os"
+	"path/filepath"
+	"strings"
+	"verif/ev"
+	"verif/sut"
 
 	"verif/gen"
 	"verif/jt"
@@ -92,6 +97,7 @@ func C03() int {
 	WholeRuns = 0 // the product is one synthetic tree per line; the grammar corpus above carries the one-process arrangement
 	RunCorpus(s, prod, pf, 1000, judge)
 	WholeRuns = -1
+	c03FailingRuns(s, c, items)
 	reportBatchAnomalies(c)
 	c.Set("flag_sets", flagNames(fsets))
 	c.Set("race_reports", s.RaceReports())
@@ -101,4 +107,124 @@ func C03() int {
 	c.Assume("input lines have no duplicate sibling keys (never generated)")
 	c.Assume("--redactFieldNames is excluded (renames keys by design)")
 	return c.Finish("grammar lines + vocabulary-soup trees placed in every zone + other-component lines + the full product {vocabulary key}×{value kind}×{zone}; each output is parsed by the driver's strict reader and aligned node by node with the input tree (keys and order, array lengths, JSON type of every leaf); non-trivial = more than 12 aligned nodes, distinct by line+flags")
+}
+
+// c03FailingRuns: "every emitted line is exactly one valid JSON object" also holds for the lines a
+// run emits before it stops with an error (an over-long line after more than one write buffer of
+// output, a .gz that ends early): whatever reaches the output must be whole lines, each the image
+// of its input line.
+func c03FailingRuns(s *sut.SUT, c *ev.Check, items []Item) {
+	var good []Item
+	size := 0
+	for _, it := range items {
+		if it.Case != nil && len(it.Raw) < 4000 {
+			good = append(good, it)
+			size += len(it.Raw)
+		}
+		if size > 400000 {
+			break
+		}
+	}
+	if len(good) < 50 {
+		c.Inconclusive("too few lines for the failing-run inputs")
+		return
+	}
+	long := []byte(`{"t":{"$date":"2025-01-01T00:00:00.000+00:00"},"s":"I","c":"COMMAND","id":51803,"ctx":"conn1","msg":"Slow query","attr":{"type":"command","ns":"db.c","command":{"find":"c","filter":{"k":"` + strings.Repeat("L", 70000) + `"},"$db":"db"}}}`)
+	type fr struct {
+		name string
+		data []byte
+		gz   bool
+		n    int // lines that can have been emitted at most
+	}
+	var runs []fr
+	join := func(its []Item, extraAt int) []byte {
+		var b bytes.Buffer
+		for i, it := range its {
+			if i == extraAt {
+				b.Write(long)
+				b.WriteByte('\n')
+			}
+			b.Write(it.Raw)
+			b.WriteByte('\n')
+		}
+		if extraAt >= len(its) {
+			b.Write(long)
+			b.WriteByte('\n')
+		}
+		return b.Bytes()
+	}
+	for _, at := range []int{1, len(good) / 3, len(good) - 1, len(good)} {
+		runs = append(runs, fr{fmt.Sprintf("over-long line before line %d of %d", at, len(good)), join(good, at), false, at})
+	}
+	whole := gz(join(good, -1))
+	for _, cut := range []int{len(whole) / 4, len(whole) / 2, 3 * len(whole) / 4, len(whole) - 9, len(whole) - 1} {
+		runs = append(runs, fr{fmt.Sprintf("gzip input cut at byte %d of %d", cut, len(whole)), whole[:cut], true, len(good)})
+	}
+	fsets := []Flags{{}, {N: true, B: true, W: true}}
+	parallelDo(len(runs)*3*len(fsets), func(j int) {
+		r := runs[j%len(runs)]
+		ch := (j / len(runs)) % 3
+		f := fsets[j/(3*len(runs))]
+		if r.gz && ch == 2 {
+			return // stdin is never decompressed
+		}
+		dir := s.TempDir("c03f")
+		defer os.RemoveAll(dir)
+		in := filepath.Join(dir, "in.log")
+		if r.gz {
+			in += ".gz"
+		}
+		os.WriteFile(in, r.data, 0o644)
+		outp := filepath.Join(dir, "out.log")
+		args := append([]string{"redact"}, f.Args(j, "")...)
+		run := sut.Run{Dir: dir}
+		switch ch {
+		case 0:
+			args = append(args, in)
+		case 1:
+			args = append(args, in, "-o", outp)
+		case 2:
+			run.Stdin = r.data
+		}
+		run.Args = args
+		res := s.CLI(run)
+		out := res.Stdout
+		if ch == 1 {
+			out, _ = os.ReadFile(outp)
+		}
+		if res.TimedOut {
+			c.Inconclusive("watchdog on a failing run")
+			return
+		}
+		c.Count("failing_runs", 1)
+		c.Eval(fmt.Sprintf("failing|%s|%d|%s", r.name, ch, f))
+		rp := map[string]any{"kind": "failing-run", "what": r.name, "channel": []string{"file>stdout", "file>-o", "stdin>stdout"}[ch], "flags": f.Args(j, ""), "exit": res.Exit, "output_tail": short(out[max(0, len(out)-300):], 300)}
+		if len(out) > 0 && out[len(out)-1] != '\n' {
+			c.Violation("torn-last-line|failing-run", fmt.Sprintf("%s (%s, flags %s, exit %d): the output ends in a partial line: …%s", r.name, rp["channel"], f, res.Exit, short(out[max(0, len(out)-120):], 120)), rp)
+			return
+		}
+		ls := splitLines(out)
+		if len(ls) > r.n {
+			c.Violation("too-many-lines|failing-run", fmt.Sprintf("%s: %d output lines although at most %d input lines precede the fault", r.name, len(ls), r.n), rp)
+			return
+		}
+		for i, l := range ls {
+			t, err := jt.ParseObject(l)
+			if err != nil {
+				c.Violation("output-not-json|failing-run", fmt.Sprintf("%s (%s, flags %s): output line %d is not one JSON object: %v: %s", r.name, rp["channel"], f, i, err, short(l, 120)), rp)
+				return
+			}
+			bad := ""
+			WalkTagged(good[i].Tree, t, false, func(o TObs) {
+				if o.Mismatch != "" && bad == "" {
+					bad = fmt.Sprintf("%s at %s", o.Mismatch, jt.PathStr(o.Path))
+				}
+			})
+			if bad != "" {
+				c.Violation("shape|failing-run", fmt.Sprintf("%s: output line %d does not have the shape of input line %d (%s)", r.name, i, i, bad), rp)
+				return
+			}
+			c.Count("lines_emitted_before_a_failure_aligned", 1)
+		}
+	})
 }
